@@ -296,6 +296,12 @@ HISTORY_CORPUS = [
     {"src": {"a/f-2": {"depend": "a/o"}}, "vdb": {"a/b-1": {"idepend": "a/c"}, "a/c-2": {"depend": "a/o"}}, "targets": ["a/b"], "mode": "upgrade", "doomed": "a/f"},
     {"src": {"a/f-2": {"bdepend": "|| ( a/o a/n )"}, "a/d-3": {"rdepend": "a/n"}, "a/g-1": {}},
      "vdb": {"a/d-2": {"pdepend": "a/e"}, "a/e-1": {"bdepend": "|| ( a/n a/o )", "rdepend": "a/g"}}, "targets": ["a/d"], "mode": "min", "doomed": "a/f"},
+    # second fix of the same family (found by seed 6): the pruning done INSIDE a frame (reduce_solutions / force_next_pkg) still applied the
+    # failed atom to the build-time classes of built packages — on a fresh resolver a/b-2's hopeless DEPEND a/o also discarded installed
+    # a/b-1 (BDEPEND a/o), so a/b failed; after a failed a/f and reset() (a/o known insoluble) it resolved to the installed instance
+    {"src": {"a/f-2": {"depend": "a/o"}, "a/b-2": {"depend": "a/o"}}, "vdb": {"a/b-1": {"bdepend": "a/o"}}, "targets": ["a/b"], "mode": "upgrade", "doomed": "a/f"},
+    {"src": {"a/f-2": {"depend": "a/o"}, "a/b-2": {"depend": "|| ( a/o a/n )", "bdepend": "a/o"}, "a/b-1": {"bdepend": "a/o"}},
+     "vdb": {"a/b-1": {"bdepend": "a/o", "depend": "a/n"}}, "targets": ["<=a/b-3"], "mode": "upgrade", "doomed": "a/f"},
 ]
 
 
